@@ -390,7 +390,12 @@ def bv(x, W: int | None = None):
     if isinstance(x, bool):
         x = int(x)
     if isinstance(x, int):
-        return z3.BitVecVal(int.__index__(x) if type(x) is int else _raw_int(x), W or cur().W)
+        v = int.__index__(x) if type(x) is int else _raw_int(x)
+        w = W or cur().W
+        if not (-(1 << (w - 1)) <= v < (1 << (w - 1))) and ENG is not None:
+            # a concrete constant that does not fit the vector width would silently wrap
+            ENG.oblige(False, 'constant-exceeds-width')
+        return z3.BitVecVal(v, w)
     raise TypeError('pysym: cannot convert %r to a bit-vector' % type(x))
 
 
